@@ -80,9 +80,12 @@ def pick_enc(rng, p_none=0.6, spell=0.15):
     return rng.choice(CODECS)
 
 
-def gen_wellformed_calls(rng, max_changes=3, max_files=3):
-    """(main encoding, calls) — a call sequence the writer must accept."""
+def gen_wellformed_calls(rng, max_changes=3, max_files=3, no_main=False):
+    """(main encoding, calls) — a call sequence the writer must accept. With no_main the file declares no encoding:
+    text sections then carry their own, or (metadata only) are written with no encoding in force."""
     main = pick_enc(rng, p_none=0.0, spell=0.1) if rng.random() < 0.6 else 'utf-8'
+    if no_main:
+        main = None
     calls = []
     # effective encodings tracked here only to pick encodable texts
     def eff(*encs):
@@ -93,6 +96,8 @@ def gen_wellformed_calls(rng, max_changes=3, max_files=3):
 
     def preamble(parent_eff):
         e = pick_enc(rng, 0.65)
+        if not eff(e, parent_eff):
+            e = pick_enc(rng, 0.0)
         t = gen_text(rng, canon(eff(e, parent_eff)))
         ind = rng.choice(['omitted', 'omitted', {'i': 0}, {'i': 1}, {'i': 4}, {'i': 7}, None, {'i': 2}])
         le = rng.choice([None, None, S('unix'), S('dos')])
